@@ -25,6 +25,24 @@ pub(crate) struct Endpoint {
 
 impl Endpoint {
     pub fn new(config: EndpointConfig, socket: std::net::UdpSocket) -> Result<Self> {
+        // Verification hook: let a harness replace the UDP socket by an abstract socket.
+        #[cfg(bmwill_anemo_verif)]
+        if let Some(abstract_socket) = crate::verif::socket_override(&socket) {
+            let local_addr = abstract_socket.local_addr()?.pipe(RwLock::new);
+            let server_config = config.server_config().clone();
+            let endpoint = quinn::Endpoint::new_with_abstract_socket(
+                config.quinn_endpoint_config(),
+                Some(server_config),
+                abstract_socket,
+                Arc::new(quinn::TokioRuntime),
+            )?;
+            return Ok(Self {
+                inner: endpoint,
+                local_addr,
+                config,
+            });
+        }
+
         let local_addr = socket.local_addr()?.pipe(RwLock::new);
         let server_config = config.server_config().clone();
         let endpoint = quinn::Endpoint::new(
